@@ -272,6 +272,8 @@ class History(object):
                     ids = cand
                     break
         if ids is None:
+            if self._ambiguous_identity():
+                raise Skip("untimed selection with equal poses: kept ids not identifiable")
             ids = self._match_ids("downsample")
         from vf.checks.c11 import check_downsample_ids
         try:
@@ -293,17 +295,21 @@ class History(object):
         o.motion_filter(d, math.degrees(a) if op["deg"] else a, op["deg"])
         P = np.array([p[:3, 3] for p in self.poses])
         steps = rm.step_lengths(P)
+        # a step length is a difference of coordinates: its rounding error scales with the coordinate magnitude times eps
+        margin_d = 1e-9 * max(math.fsum(steps), d) + 4096 * rm.EPS * self.mag
         ids = None
         if not self.timed:
             # without stamps equal poses make the identification ambiguous: try the ids the definition gives first
-            ref_ids, amb = pairsel.motion_filter_reference(P, [p[:3, :3] for p in self.poses], d, a, 1e-7 * max(math.fsum(steps), d, self.mag), 1e-7)
+            ref_ids, amb = pairsel.motion_filter_reference(P, [p[:3, :3] for p in self.poses], d, a, margin_d, 1e-7)
             Pout = np.asarray(o.positions_xyz)
             if not amb and len(ref_ids) == o.num_poses and all(float(np.abs(P[j] - Pout[k]).max()) <= self._ptol() for k, j in enumerate(ref_ids)):
                 ids = ref_ids
+            elif self._ambiguous_identity():
+                raise Skip("untimed selection with equal poses: kept ids not identifiable")
         if ids is None:
             ids = self._match_ids("motion_filter")
         try:
-            pairsel.check_motion_filter(ids, P, [p[:3, :3] for p in self.poses], d, a, 1e-7 * max(math.fsum(steps), d, self.mag), 1e-7)
+            pairsel.check_motion_filter(ids, P, [p[:3, :3] for p in self.poses], d, a, margin_d, 1e-7)
         except Bad as b:
             if self._ambiguous_identity():
                 raise Skip("untimed selection with equal poses: kept ids not identifiable")
